@@ -176,6 +176,23 @@ type badMarshaler struct{ msg string }
 
 func (b badMarshaler) MarshalJSON() ([]byte, error) { return nil, errors.New(b.msg) }
 
+// defined types over basic kinds, with and without marshalling methods of their own: what such a value logs as is decided by
+// encoding/json (MarshalJSON, then MarshalText, then the kind), not by the kind alone
+type defInt int64
+type defUint uint32
+type defStr string
+type defBool bool
+type textInt int
+type textStr string
+type jsonStr string
+
+func (t textInt) MarshalText() ([]byte, error) { return []byte("st-" + strconv.Itoa(int(t))), nil }
+func (t textStr) MarshalText() ([]byte, error) { return []byte("<" + strings.ToUpper(string(t)) + ">"), nil }
+func (t jsonStr) MarshalJSON() ([]byte, error) {
+	b, _ := json.Marshal(string(t))
+	return []byte(`{"v":` + string(b) + `}`), nil
+}
+
 // rval builds a Go value for Reflect/Any-other, appends its resolution (json.Marshal text or error) to res.
 func (c *cur) rval() any {
 	start := len(c.res)
@@ -218,6 +235,22 @@ func (c *cur) rvalRaw() any {
 		return make(chan int)
 	case "rbm":
 		return badMarshaler{c.str()}
+	case "rdi":
+		return defInt(c.z())
+	case "rdu":
+		return defUint(c.z())
+	case "rds":
+		return defStr(c.str())
+	case "rdb":
+		return defBool(c.boolean())
+	case "rti":
+		return textInt(c.z())
+	case "rts":
+		return textStr(c.str())
+	case "rjs":
+		return jsonStr(c.str())
+	case "rjn":
+		return json.Number(c.str())
 	case "rf":
 		return func() {}
 	case "rst":
